@@ -22,7 +22,7 @@ CLAIMED = {
             "TLC checks Completes/Agreement/Delivery/RawSplitAgrees on every state of honest sessions of all explored classes "
             "(stateful+stateless, both directions, payloads 0..max-fit); each behaviour is replayed on snow with per-call "
             "comparison of results, lengths, hashes and delivered payloads.",
-            TLA + "invariants on the session model + scenario replay (D1)"),
+            TLA + "invariants on the session model + scenario replay (D1) + trace validation of real-RNG sessions (D2)"),
     "C03": ("model_checking", "5 (C03)",
             "Adversary = mutator/replayer without keys. TLC explores every single alteration class of every handshake message "
             "(per field flips/junk, truncation at and inside every field, extension, substitution by an earlier message), "
@@ -38,7 +38,7 @@ CLAIMED = {
             "All delivery schedules (reorder/loss/duplication/garbage/undersized buffers/explicit receiving nonce) explored "
             "exhaustively within the stated depth; invariants InOrderOnce, RejectIsNoOp; result and both nonces compared after "
             "every call of every edge.",
-            TLA + "edge-cover scenario replay (D1)"),
+            TLA + "edge-cover scenario replay (D1) + trace validation of long random delivery schedules (D2)"),
     "C06": ("model_checking", "5 (C06)",
             "History variable aeadLog over both endpoints incl. failed calls, retries, late set_psk; invariants NoNonceReuse, "
             "ReservedUnused. On the code, a recording Cipher/Random (via Builder::with_resolver) logs every encryption and draw "
@@ -48,19 +48,19 @@ CLAIMED = {
             "TLC enumerates the fault space from the model's message layout (every cause of Appendix A at every field boundary, "
             "both sides, every message) and computes the expected continuation; the code must return the documented error kind, "
             "keep every observable unchanged and then produce exactly the failure-free bytes.",
-            TLA + "model-derived fault enumeration replayed on the code (D1)"),
+            TLA + "model-derived fault enumeration replayed on the code (D1) + trace validation of faulty random sessions and of the repository's own tests (D2)"),
     "C08": ("model_checking", "5 (C08)",
             "The two endpoints are built with exactly one differing context item (prologue, one PSK, the pre-shared static "
             "key of the peer on either side: another valid key / the right key with one bit flipped), or overwrite a PSK "
             "with set_psk at any time; invariant MismatchNoChannel / OverwriteTakesEffect; the model predicts the failing "
             "call and the code must fail there. Name mismatches with different primitives are outside the symbolic "
             "evaluator (one primitive set per scenario).",
-            TLA + "mismatch configurations of the session model + scenario replay (D1)"),
+            TLA + "mismatch configurations of the session model + scenario replay (D1) + trace validation of mismatched sessions (D2)"),
     "C09": ("model_checking", "5 (C09)",
             "Counters are placed two below 2^64-1 (sender through the verif-hooks hook) and every interleaving of ok/failing "
             "reads/writes and explicit settings is explored; invariants StepsByOne, ExhaustedFails, ReservedUnused; the "
             "recording cipher flags any use of nonce 2^64-1 other than the REKEY input.",
-            TLA + "edge-cover scenario replay at the top of the 64-bit range (D1) + recording cipher"),
+            TLA + "edge-cover scenario replay at the top of the 64-bit range (D1) + recording cipher + Apalache inductive invariant for an unbounded counter (NonceInd.tla)"),
     "C10": ("exploration", "5 (C10)",
             "The model is total, so a panic/abort/stall is an event no action explains. TLC supplies the boundary cases "
             "(every Appendix-A cause at every field boundary, every call in every phase, key lengths, set_psk positions), "
@@ -71,7 +71,7 @@ CLAIMED = {
             "MC_StateMachine explores every call sequence over the full API alphabet (both endpoints, all phases, early "
             "conversions, transport one-way rules) to a depth bound with a bound on failing calls, for all 38 patterns + psk "
             "representatives; invariants Indicators, OutOfPhase, ConvertOnlyFinished, OneWayS; every edge replayed.",
-            TLA + "edge-cover scenario replay (D1)"),
+            TLA + "edge-cover scenario replay (D1) + trace validation of the repository's own tests (D2)"),
     "C12": ("model_checking", "5 (C12)",
             "Complete enumeration of the finite build space (19 760 cases) with prerequisites derived from the token table "
             "of the specification; late-PSK sessions show the error arises at the message that needs the PSK and set_psk "
@@ -90,12 +90,12 @@ CLAIMED = {
             "Every bounded sequence of write/deliver/rekey_outgoing/rekey_incoming/rekey_manually on both sides, stateful and "
             "stateless; REKEY(k) is a term evaluated from its definition with independent primitives so post-rekey bytes are "
             "compared exactly; in-sync delivers, out-of-sync rejects follows from the AEAD law of the model.",
-            TLA + "edge-cover scenario replay with byte-exact REKEY (D1)"),
+            TLA + "edge-cover scenario replay with byte-exact REKEY (D1) + trace validation of rekey storms and of the repository's own tests (D2)"),
     "C16": ("model_checking", "5 (C16)",
             "Stateless writes/reads under nonces {0,1,2,2^32,2^32+1,2^63,2^64-3..2^64-1} in any order and repetition, "
             "maximum-size payloads, default and ring backends; the expected message under nonce n is the term of the stateful "
             "sender's n-th message. Thread interleavings are sampled by a multi-threaded driver (not enumerated).",
-            TLA + "edge-cover scenario replay (D1)"),
+            TLA + "edge-cover scenario replay (D1) + trace validation of 8 threads sharing one stateless session (D2)"),
     "C17": ("model_checking", "5 (C17)",
             "RemoteStaticCorrect on every state; get_remote_static() compared with the model term after every call on all three "
             "state types for 32- and 65-byte keys, including after rejected reads and across both conversions.",
